@@ -232,7 +232,7 @@ _add(
          "new layer is run k steps, cleared, compared state-by-state with a freshly built copy carrying its parameters and "
          "adaptations, and both replay 5 steps. One evaluation = one compared step or one clear position; distinct = "
          "(layer kind / combine, neuron, synapse, delay, capture, batch, clear position class) abstractions.",
-    required=["wiring_steps_checked", "clear_positions_checked", "replays_checked"],
+    required=["wiring_steps_checked", "component_states_compared", "clear_positions_checked", "replays_checked"],
     floor={"quick": 150, "thorough": 500},
     exhaustive={"quick": ["clear() at every position 0..T of each generated run"], "thorough": ["clear() at every position 0..T of each generated run"]},
     text="Held on every topology and run explored: layer outputs (and captured intermediates) equal the documented "
@@ -276,7 +276,7 @@ _add(
          "kernels vs the dedicated delay-adjusted rule on identical inputs; (c) all-zero delays vs the undelayed kernel "
          "rule; (d) exactly constructed t_delta == 0 ties. One evaluation = one step judged; distinct = (part, trainer, "
          "cell type, delay values, sign mode, reduction, batch, reward kind, active/silent).",
-    required=["formula_steps_checked", "steps_with_change", "steps_before_both_sides_spiked", "cross_steps_checked",
+    required=["formula_steps_checked", "steps_with_change", "steps_before_both_sides_spiked", "trainer_clears", "cross_steps_checked",
               "zero_delay_steps_checked", "ties_checked", "tensor_valued_kernel_kwargs_cases"],
     floor={"quick": 60, "thorough": 150},
     text="Held on every history explored: the change applied by each real delay-adjusted / kernel trainer after every "
